@@ -155,6 +155,35 @@ func decoders() []decoder {
 			}
 		}
 	}
+	// unprotection with incompletely initialised key sets (one of the four direction objects missing)
+	for miss := 0; miss < 4; miss++ {
+		for _, role := range []bool{true, false} {
+			miss, role := miss, role
+			ds = append(ds, decoder{fmt.Sprintf("DecodeDecrypt(key lacks %s,initiator=%v)", []string{"Integ_i", "Integ_r", "Encr_i", "Encr_r"}[miss], role), func(b []byte) (string, error) {
+				sa, err := univ.NewSA(univ.MakeKeySet(0, 2, 2))
+				if err != nil {
+					return "", err
+				}
+				switch miss {
+				case 0:
+					sa.Integ_i = nil
+				case 1:
+					sa.Integ_r = nil
+				case 2:
+					sa.Encr_i = nil
+				case 3:
+					sa.Encr_r = nil
+				}
+				// two calls on the same key object: the second must not be affected by the first
+				_, _ = ike.DecodeDecrypt(b, nil, sa, roleOf(role))
+				m, err := ike.DecodeDecrypt(b, nil, sa, roleOf(role))
+				if err != nil {
+					return "", err
+				}
+				return univ.Project(m).Canon(), nil
+			}, nil})
+		}
+	}
 	for _, kl := range []int{16, 24, 32} {
 		kl := kl
 		ds = append(ds, decoder{fmt.Sprintf("AES-CBC-%d.Decrypt", kl*8), func(b []byte) (string, error) {
@@ -382,6 +411,12 @@ func runC04(c *engine.Ctx) {
 		"DecodeDecrypt(key=1,parsedHeader=false,initiator=false)", "DecodeDecrypt(key=2,parsedHeader=true,initiator=false)", "DecodeDecrypt(key=-1,parsedHeader=false,initiator=true)"} {
 		protDec = append(protDec, byName[n])
 	}
+	for _, d := range ds {
+		if len(d.name) > 22 && d.name[:22] == "DecodeDecrypt(key lack" {
+			d := d
+			protDec = append(protDec, &d)
+		}
+	}
 	al := univ.Alphabet()
 	for ai, inst := range al {
 		if !(ai%7 == 0 || c.Thorough()) {
@@ -404,6 +439,16 @@ func runC04(c *engine.Ctx) {
 				continue
 			}
 			_ = k
+			for _, d := range protDec {
+				run(d, b, "protected(genuine)")
+			}
+			// the same message from the responder, for receivers acting as initiator
+			rske, rska := ks.DirKeys(false)
+			if rb, err := ref.Protect(ks.Suite, rske, rska, m, ref.Lib{}, univ.Pat(16, 5), univ.Pat(pad, 6)); err == nil {
+				for _, d := range protDec {
+					run(d, rb, "protected(genuine, from responder)")
+				}
+			}
 			mutate(b, protDec, "U-mut-protected")
 		}
 	}
